@@ -97,7 +97,16 @@ def build_uninitialised(ex):
     return ex.instantiate(ex.program.find_class('Model'), [], kw)
 
 
+def build_edited(ex):
+    """initialised, then edited (a reaction added) and not initialised again: `initialized` is False while the matrices of the
+    last initialisation are still there"""
+    m = build_model(ex)
+    ex.call_method(m, ex.program.find_method(m.cls, 'create_reaction'), [['B'], ['A', 'A'], 'massaction', {'k': 'k1'}], {})
+    return m
+
+
 roundtrip_contract('types', 'Model', build_model, 'initialised')
+roundtrip_contract('types', 'Model', build_edited, 'initialised-then-edited')
 roundtrip_contract('types', 'Model', build_uninitialised, 'not-initialised')
 
 
